@@ -183,6 +183,15 @@ func writeAndRead(c *c07Case, work string) (out c07Out) {
 			return c07Out{Err: fmt.Sprintf("read-dir:%v n=%d", ferr, len(fs))}
 		}
 		stmts, err = fs[0].Stmts()
+		// formats with a reader of their own (goose: section markers and StatementBegin/End; dbmate: section markers): what the executor
+		// gets through migrate.FileStmts(driver, file) is what that reader returns
+		if c.Formatter == "goose" || c.Formatter == "dbmate" {
+			viaDrv, derr := migrate.FileStmts(drv, fs[0])
+			if (err == nil) != (derr == nil) || (err == nil && strings.Join(viaDrv, "\x00") != strings.Join(stmts, "\x00")) {
+				out.Err = fmt.Sprintf("format-reader-bypassed: the %s file's own reader returns %d statements (err=%v), migrate.FileStmts with the %s driver %d (err=%v)", c.Formatter, len(stmts), err, c.Dialect, len(viaDrv), derr)
+				return out
+			}
+		}
 	}
 	if err != nil {
 		out.Err = "scan"
@@ -243,6 +252,9 @@ func c07Monitor(c *c07Case, o c07Out) (bool, string, string) {
 			return "postgres-escape-string-in-third-party-dir"
 		}
 		return sig
+	}
+	if strings.HasPrefix(o.Err, "format-reader-bypassed") {
+		return false, "format-reader-bypassed", fmt.Sprintf("%s/%s: %s; plan=%s", c.Dialect, c.Formatter, o.Err, trunc(hxJSON(c.Changes), 400))
 	}
 	if o.Err != "" {
 		return false, class("planned-file-unreadable"), fmt.Sprintf("%s/%s: reading the written file back fails (%s); plan=%s", c.Dialect, c.Formatter, o.Err, trunc(hxJSON(c.Changes), 600))
